@@ -331,10 +331,12 @@ impl ExpansionPiece {
         }
     }
 
-    const fn len(&self) -> usize {
+    /// Returns the length of the piece in characters (not bytes), which is what `${#var}`
+    /// and substring offsets are expressed in.
+    fn len(&self) -> usize {
         match self {
-            Self::Unsplittable(s) => s.len(),
-            Self::Splittable(s) => s.len(),
+            Self::Unsplittable(s) => s.chars().count(),
+            Self::Splittable(s) => s.chars().count(),
         }
     }
 
